@@ -47,10 +47,12 @@ static void pointHook(const char * tag)
 	size_t n = std::strlen(tag);
 	bool racy = n > 7 && std::strcmp(tag + n - 7, ".racy_r") == 0;
 	if(racy) { vs::S->point(tag); return; }
-	if(vs::locksHeld() == 0 && g_liveWorkers >= 2) {
+	if(vs::g_lockset.access(tag, self()) && g_liveWorkers >= 2) {
 		std::fprintf(g_out, "{\"e\":\"ua\",\"t\":%d}\n", self());
 		vs::S->point(tag);
+		return;
 	}
+	if(n > 6 && std::strcmp(tag + n - 6, ".mid.w") == 0) vs::S->point(tag);
 }
 struct Cb
 {
@@ -126,7 +128,8 @@ static bool execute(vs::Strategy * strategy, long execNo)
 	vs::S = schedp;
 	const int n = (int)g_prog.size();
 	sched.reset(n, strategy);
-	for(int i = 0; i < 16; ++i) vs::g_locksHeld[i] = 0;
+	for(int i = 0; i < 16; ++i) { vs::g_locksHeld[i] = 0; vs::g_heldSet[i].clear(); }
+	vs::g_lockset.reset();
 	obj = new Obj();
 	g_handles = new std::map<int, Handle>();
 	for(int i = 1; i <= g_init; ++i) { (*g_handles)[i] = doAppend(i); std::fprintf(g_out, "{\"e\":\"in\",\"a\":%d}\n", i); }
